@@ -1567,3 +1567,122 @@ func sharedNoShallowCopy(c *an.Ctx, rule string, prefix string) (examined int) {
 	}
 	return examined
 }
+
+// ecsHopToHop holds the tables of the ECS cache's hop-by-hop clean-up: all
+// three sections are cleaned whatever the DO bit; OPT records lose every option
+// except EDE and vanish when empty, independently of the DO bit; DNSSEC records
+// are kept only for DO requests or when they are what was asked for.
+func ecsHopToHop(c *an.Ctx, rule string) {
+	decide(c, rule, "ecscache.rmHopToHopData", an.DecideCfg{
+		Dom: an.Domain{"p2": an.Bools},
+		OnCall: func(it *an.Interp, name string, args []an.AV) (an.AV, bool) {
+			if strings.HasSuffix(name, "ecscache.rmHopToHopRRs") {
+				return an.NonNil("clean(" + args[0].String() + "," + args[1].String() + "," + args[2].String() + ")"), true
+			}
+			return an.AV{}, false
+		},
+		Expect: func(f an.Features, o an.AOutcome) string {
+			do := fmt.Sprint(f.B("p2"))
+			st := map[string]string{}
+			for _, e := range o.Effects {
+				if e.Kind == "store" {
+					st[e.Name] = e.Args[0]
+				}
+			}
+			for sec, exc := range map[string]string{"Answer": "p1", "Ns": "0", "Extra": "0"} {
+				want := fmt.Sprintf("nonnil:clean(p0.%s,%s,%s)", sec, do, exc)
+				if st["p0."+sec] != want {
+					return fmt.Sprintf("section %s replaced by its cleaned form for every request (the walk also strips the upstream's own EDNS options, which must not reach a client that sent a DO bit either): %s; got %q", sec, want, st["p0."+sec])
+				}
+			}
+			return ""
+		},
+	})
+	opt := "*github.com/miekg/dns.OPT"
+	decide(c, rule, "ecscache.filterRR", an.DecideCfg{
+		Dom: an.Domain{"type(p0)": an.Strs(opt, "*github.com/miekg/dns.A"), "p2": an.Bools, "dnssec": an.Bools, "(hdr.Rrtype == p1)": an.Bools, "len(nonnil:onlyEDE)": an.Ints(0, 1)},
+		OnCall: func(it *an.Interp, name string, args []an.AV) (an.AV, bool) {
+			switch {
+			case name == "p0.Header":
+				return an.NonNil("hdr"), true
+			case name == "slices.DeleteFunc":
+				return an.NonNil("onlyEDE"), true
+			case strings.HasSuffix(name, "ecscache.isDNSSEC"):
+				return it.Feature("dnssec"), true
+			}
+			return an.AV{}, false
+		},
+		Expect: func(f an.Features, o an.AOutcome) string {
+			if f.S("type(p0)") == opt {
+				var del string
+				for _, e := range o.Effects {
+					if e.Kind == "call" && e.Name == "slices.DeleteFunc" {
+						del = strings.Join(e.Args, ",")
+					}
+				}
+				if !strings.HasSuffix(del, ".Option,nonnil:closure:ecscache.isNotEDE") && !strings.Contains(del, "isNotEDE") {
+					return "every option except EDE deleted from an OPT record, whatever the DO bit; got " + del
+				}
+				want := "p0"
+				if f.I("len(nonnil:onlyEDE)") == 0 {
+					want = "nil"
+				}
+				if o.RetString() != want {
+					return want + " (an OPT record left without options is dropped); got " + o.RetString()
+				}
+				return ""
+			}
+			keep := f.B("p2") || !f.B("dnssec") || f.B("(hdr.Rrtype == p1)")
+			want := "nil"
+			if keep {
+				want = "p0"
+			}
+			if o.RetString() != want {
+				return want + " (DNSSEC records only for DO requests or when they are the type asked for); got " + o.RetString()
+			}
+			return ""
+		},
+	})
+	decide(c, rule, "ecscache.rmHopToHopRRs", an.DecideCfg{
+		Dom: an.Domain{"len(p0)": an.Ints(0, 2), "keep0": an.Bools, "keep1": an.Bools},
+		OnCall: func(it *an.Interp, name string, args []an.AV) (an.AV, bool) {
+			if strings.HasSuffix(name, "ecscache.filterRR") {
+				if args[1].String() != "p2" || args[2].String() != "p1" {
+					return an.Sym("filter with other arguments"), true
+				}
+				i := "0"
+				if strings.Contains(args[0].String(), "[1]") {
+					i = "1"
+				}
+				if it.Feature("keep" + i).IsTrue() {
+					return an.NonNil("kept" + i), true
+				}
+				return an.Nil(), true
+			}
+			return an.AV{}, false
+		},
+		Expect: func(f an.Features, o an.AOutcome) string {
+			n := int(f.I("len(p0)"))
+			calls := 0
+			for _, e := range o.Effects {
+				if e.Kind == "call" && strings.HasSuffix(e.Name, "ecscache.filterRR") {
+					calls++
+				}
+			}
+			if calls != n {
+				return fmt.Sprintf("every record of the section passed through the filter (%d); got %d", n, calls)
+			}
+			want := 0
+			for i := 0; i < n; i++ {
+				if f.B(fmt.Sprintf("keep%d", i)) {
+					want++
+				}
+			}
+			got := strings.Count(o.RetString(), "kept")
+			if got != want {
+				return fmt.Sprintf("exactly the %d records the filter keeps; got %s", want, o.RetString())
+			}
+			return ""
+		},
+	})
+}
